@@ -899,14 +899,14 @@ found:
 		escape := false
 		for i, c := range x.line {
 			if escape {
-				// Continuation line - remove \ then continue
+				// Continuation line - read the next line then continue
+				//
+				// In a raw string the backslash and the newline both stay. In
+				// other strings DecodeEscape removes them - they must not be
+				// removed here or the characters around them would join up
+				// into a different escape sequence, eg "\0\<newline>7"
 				if c == '\n' {
-					if rawString {
-						// in a raw string the backslash and the newline both stay
-						_, _ = buf.WriteRune(c)
-					} else {
-						buf.Truncate(buf.Len() - 1)
-					}
+					_, _ = buf.WriteRune(c)
 					goto readMore
 				}
 				_, _ = buf.WriteRune(c)
